@@ -126,8 +126,8 @@ def runOk (d : DbOp) (i : ImplOp) : Bool :=
   (d.runLen < 2 || i.clc == d.runLen) && (d.follower == 0 || hasBits i.flags fConsecutive)
 
 /-- an operand reported as replaceable by memory of `rmSize` bytes is replaceable in the database.
-    `lenient` excludes exactly the class of the open finding C12-F1 (register-or-memory information is kept per instruction
-    id and applied to every form): the claim is made although the database has *no* memory form at that position. -/
+    `lenient` (not used by `rowOk`; kept from the time finding C12-F1 was open) would accept the claim although the database has
+    *no* memory form at that position. -/
 def regMemOk (lenient : Bool) (d : DbOp) (i : ImplOp) : Bool :=
   if d.kind == 1 && d.rmChecked && hasBits i.flags fRegMem then
     if d.memAlt.isEmpty then lenient
@@ -167,8 +167,6 @@ def rowOkWith (lenient : Bool) (r : Row) : Bool := opsOk lenient r.mode64 (effDb
 
 /-- the monitor of C12 on one instantiated form (full strength) -/
 def rowOk (r : Row) : Bool := rowOkWith false r
-/-- the monitor with the class of finding C12-F1 excluded -/
-def rowOkPartial (r : Row) : Bool := rowOkWith true r
 
 /-- which clause fails first (for diagnostics printed by the driver; also the stable class key of a violation) -/
 def rowWhy (r : Row) : String :=
